@@ -93,64 +93,41 @@ Example C10_schema_strategy_sites :
 Proof. vm_compute. reflexivity. Qed.
 
 (* ---- isort's section placement: the ENVIRONMENT oracle (what exists below cwd) ---- *)
-(* full statement: the import blocks of a generated module do not depend on what is on disk below cwd —
-   in particular not on whether a previous generation left the target package there *)
-Definition C10_layout_full : Prop := forall sl cwd target early imps,
-  layout false sl (gen_env cwd target false early) imps = layout false sl (gen_env cwd target true early) imps.
+(* the import blocks of a generated module do not depend on what is on disk below cwd — in particular not on
+   whether a previous generation left the target package there (by construction of the model: isort is called
+   without source paths since f6e5e03; the tie compares the blocks on disk fresh / regenerated / shadowed cwd) *)
+Theorem C10_layout_env_independent : forall sl e1 e2 imps, layout sl e1 imps = layout sl e2 imps.
+Proof. exact layout_env_independent. Qed.
+Print Assumptions C10_layout_env_independent.
 
-Theorem C10_layout_regenerate_partial : forall sl cwd target early imps,
-  g_c10_isort [target] sl imps = true ->
-  layout false sl (gen_env cwd target false early) imps = layout false sl (gen_env cwd target true early) imps.
-Proof. exact layout_regenerate_partial. Qed.
-Print Assumptions C10_layout_regenerate_partial.
-
-Theorem C10_layout_partial : forall sl e1 e2 changing imps,
-  (forall m, mem_s (root_of m) changing = false -> e1 m = e2 m) -> g_c10_isort changing sl imps = true ->
-  layout false sl e1 imps = layout false sl e2 imps.
-Proof. exact layout_partial. Qed.
-
-Theorem C10_layout_regenerate_refuted : exists sl cwd target early imps,
-  layout false sl (gen_env cwd target false early) imps <> layout false sl (gen_env cwd target true early) imps.
-Proof. exact layout_regenerate_refuted. Qed.
-Print Assumptions C10_layout_regenerate_refuted.
-
-Theorem C10_layout_full_refuted : ~ C10_layout_full.
-Proof. intro H. destruct layout_regenerate_refuted as [sl [cwd [t [ea [imps D]]]]]. apply D. apply H. Qed.
-
-Theorem C10_layout_cwd_refuted : exists sl target imps,
-  layout false sl (gen_env [] target false []) imps <> layout false sl (gen_env ["pydantic"] target false []) imps.
-Proof. exact layout_cwd_refuted. Qed.
-
-(* the proposed fix (isort.Config(src_paths=())): no environment can be observed *)
-Theorem C10_layout_fs_free_independent : forall sl e1 e2 imps, layout true sl e1 imps = layout true sl e2 imps.
-Proof. exact layout_fs_free_independent. Qed.
-Print Assumptions C10_layout_fs_free_independent.
-
-(* over the site table *)
-Theorem C10_emission_env_independent : forall s, In s site_table -> env_sensitive (s_sink s) = false ->
+(* over the site table: EVERY row *)
+Theorem C10_emission_env_independent : forall s, In s site_table ->
   forall sl e1 e2 imps, observe_env (s_sink s) sl e1 imps = observe_env (s_sink s) sl e2 imps.
 Proof. exact emission_env_independent. Qed.
 Print Assumptions C10_emission_env_independent.
 
-Theorem C10_emission_env_refuted : forall s, In s site_table -> env_sensitive (s_sink s) = true ->
-  exists sl e1 e2 imps, observe_env (s_sink s) sl e1 imps <> observe_env (s_sink s) sl e2 imps.
-Proof. exact emission_env_refuted. Qed.
-
-(* the environment-sensitive rows: the two isort.code calls in their default-configuration form (the rows of
-   the proposed fixed form are in the table too and are not sensitive) *)
-Example C10_env_sensitive_sites : env_sensitive_sites =
-  [("utils.py", "ast_to_str", "isort.code(code)");
-   ("contrib/extract_operations.py", "ExtractOperationsPlugin._module_to_str", "isort.code(code_with_formatted_strings)")].
+Example C10_env_sensitive_sites : env_sensitive_sites = [].
 Proof. vm_compute. reflexivity. Qed.
 
-Example C10_layout_runs :
+(* why no row may have the source-path sink: it IS environment-dependent *)
+Theorem C10_source_path_sink_is_env_sensitive : forall k, env_sensitive k = true ->
+  exists sl e1 e2 imps, observe_env k sl e1 imps <> observe_env k sl e2 imps.
+Proof. exact observe_env_refuted. Qed.
+
+(* regression Example (fixed by f6e5e03): a scalar path into the target package, fresh vs regenerated, and an
+   unrelated cwd directory named like an imported module — equal now, different under the default configuration *)
+Example C10_regression_isort_sections :
   let early := ["my_client.scalars_impl"] in
-  layout false ["typing"] (gen_env [] "my_client" false early) imps_selfimport = [["typing"]; ["my_client.scalars_impl"; "pydantic"]] /\
-  layout false ["typing"] (gen_env [] "my_client" true early) imps_selfimport = [["typing"]; ["pydantic"]; ["my_client.scalars_impl"]] /\
-  layout false ["typing"] (gen_env [] "my_client" false []) imps_selfimport = [["typing"]; ["pydantic"]; ["my_client.scalars_impl"]] /\
-  layout true ["typing"] (gen_env [] "my_client" true early) imps_selfimport = [["typing"]; ["my_client.scalars_impl"; "pydantic"]] /\
-  g_c10_isort ["my_client"] ["typing"] imps_selfimport = false /\
-  g_c10_isort ["my_client"] ["typing"] [(0, "typing"); (0, "pydantic"); (1, "my_client")] = true.
+  let fresh := gen_env [] "my_client" false early in
+  let regen := gen_env [] "my_client" true early in
+  let shadowed := gen_env ["pydantic"] "my_client" false early in
+  layout ["typing"] fresh imps_selfimport = layout ["typing"] regen imps_selfimport /\
+  layout ["typing"] fresh imps_selfimport = layout ["typing"] shadowed imps_selfimport /\
+  layout ["typing"] regen imps_selfimport = [["typing"]; ["my_client.scalars_impl"; "pydantic"]] /\
+  layout_default ["typing"] fresh imps_selfimport = [["typing"]; ["my_client.scalars_impl"; "pydantic"]] /\
+  layout_default ["typing"] regen imps_selfimport = [["typing"]; ["pydantic"]; ["my_client.scalars_impl"]] /\
+  layout_default ["typing"] (gen_env [] "my_client" false []) imps_selfimport = [["typing"]; ["pydantic"]; ["my_client.scalars_impl"]] /\
+  layout_default ["typing"] shadowed imps_selfimport = [["typing"]; ["my_client.scalars_impl"]; ["pydantic"]].
 Proof. vm_compute. repeat split. Qed.
 
 (* ---- directory listing; both strategies ---- *)
